@@ -167,7 +167,9 @@ def streams(chk):
         out.append(dict(w=128, h=128, bd=8, content=4, n=60, **{E: 8, LP: 4, "cfg.look_ahead_distance": 0, "cfg.hierarchical_levels": 0}))
     res = []
     for a in out:
-        a[TPL] = 0
+        # TPL look-ahead off in the main sweep, except for the minimal-pool streams: the pool minima that matter are the ones of the library
+        # default (TPL on forces look_ahead_distance to 0); the TPL race that made TPL-on output irreproducible is repaired (0e5755e)
+        a[TPL] = 1 if (a.get(LP, 4) <= 2 and a["n"] >= 60) else 0
         res.append(("main", a))
     tpl = [dict(base[2], n=9), dict(base[0], n=33)]
     if chk.tier == "thorough":
